@@ -4,5 +4,5 @@ CONSTANTS
   LMax = 5
   M = 1
   H = 5
-INVARIANTS Inv_Even Inv_Bound Inv_Shift Inv_Diff Inv_YW Inv_Predict Emit
+INVARIANTS Inv_DiffK Inv_Even Inv_Bound Inv_Shift Inv_Diff Inv_YW Inv_Predict Emit
 CHECK_DEADLOCK FALSE
